@@ -202,6 +202,8 @@ class World:
                 d.values = arr
             else:
                 d.values = new
+        elif act == "SetMeta":
+            self.ent(a["s"]).metadata = {"tok": int(a["v"]), "nested": {"tok": int(a["v"])}}
         elif act in ("Move", "MoveSame"):
             self.ent(a["s"]).parent = self.ent(a["p"])
         elif act == "AddDataFails":
@@ -534,7 +536,8 @@ class World:
             par = e.parent
             mem[str(s)] = {"par": self.slot_of(par.uid) if par is not None else -1, "name": e.name,
                            "flag": bool(e.allow_delete),
-                           "val": (self.token(e.values) if kind(s) == "D" else 0)}
+                           "val": (self.token(e.values) if kind(s) == "D" else 0),
+                           "meta": _meta_token(e.metadata) if kind(s) in "GO" else 0}
         conts = {0: self.ws.root}
         conts.update({s: e for s, e in ents.items() if kind(s) in "GO"})
         for s, e in conts.items():
@@ -585,7 +588,17 @@ class World:
                     ds = node["datasets"].get("Data")
                     val = self.token(ds.get("value")) if ds else None
                 if s != 0:
-                    fnode[str(s)] = {"on": True, "name": node["attrs"].get("Name"),
+                    meta = 0
+                    if cont != "Data" and "Metadata" in node["datasets"]:
+                        import json as _json
+                        try:
+                            raw = node["datasets"]["Metadata"].get("value")
+                            if isinstance(raw, list) and len(raw) == 1:
+                                raw = raw[0]
+                            meta = _meta_token(_json.loads(raw))
+                        except (TypeError, ValueError):
+                            meta = "unparsable"
+                    fnode[str(s)] = {"on": True, "name": node["attrs"].get("Name"), "meta": meta,
                                      "flag": bool(node["attrs"].get("Allow delete")), "val": val,
                                      "cont": cont,
                                      "opt": "Partially hidden" in node["attrs"] and "Public" in node["attrs"]}
@@ -599,6 +612,14 @@ class World:
                     fpg[str(p2s.get(pu, f"?{pu}"))] = {"owner": s, "name": attrs.get("Group Name"),
                                                       "props": sorted(str(sl(h5snap._uid(str(x)))) for x in props)}
         return {"fnode": fnode, "flink": sorted(flink), "fpg": fpg}
+
+
+def _meta_token(md):
+    if not md:
+        return 0
+    if not isinstance(md, dict) or md.get("tok") != (md.get("nested") or {}).get("tok"):
+        return f"garbled:{md}"
+    return md.get("tok", 0)
 
 
 def _is_pg(c):
@@ -620,7 +641,7 @@ def _val(s, r):
 
 
 def expect_live(st):
-    mem = {s: {"par": r["par"], "name": r["name"], "flag": r["flag"], "val": _val(s, r)}
+    mem = {s: {"par": r["par"], "name": r["name"], "flag": r["flag"], "val": _val(s, r), "meta": r["meta"]}
            for s, r in st["mem"].items() if r["par"] != -1}
     kids = {c: sorted(str(x) for x in v) for c, v in st["kids"].items() if c == "0" or st["mem"][c]["par"] != -1}
     pgs = {p: {"owner": r["owner"], "name": r["name"], "props": sorted(str(x) for x in r["props"])}
@@ -629,7 +650,7 @@ def expect_live(st):
 
 
 def expect_file(st):
-    fnode = {s: {"on": True, "name": r["name"], "flag": r["flag"], "val": _val(s, r),
+    fnode = {s: {"on": True, "name": r["name"], "flag": r["flag"], "val": _val(s, r), "meta": r["meta"],
                  "cont": {"G": "Groups", "O": "Objects", "D": "Data"}[kind(s)], "opt": st["fopt"][s]}
              for s, r in st["fnode"].items() if r["on"]}
     flink = sorted((str(a), str(b)) for a, b in st["flink"])
